@@ -68,6 +68,30 @@ def agg_def(fv, o, adt):
     return None
 
 
+_RF = {}
+
+
+def ristretto_formulas(F):
+    """cached C06.formula results: instance -> ok"""
+    if id(F) not in _RF:
+        import formula_rules as FR
+        import itertools
+        ep = F.adts.get("curve25519_dalek::edwards::EdwardsPoint")
+        res = {}
+        if ep:
+            fe_ty = ep["variants"][0]["fields"][0]["ty"]
+            for inst, f_, ok, msg in itertools.chain(FR.ristretto(F, fe_ty), FR.ristretto_batch(F, fe_ty) if F.has_cfg("feature=alloc") else ()):
+                res[inst] = (f_, ok, msg)
+        _RF[id(F)] = res
+    return _RF[id(F)]
+
+
+def encoder_formulas_ok(F, nm):
+    pre = "RistrettoPoint::compress[" if nm == "compress" else "RistrettoPoint::double_and_compress_batch["
+    rs = [ok for inst, (f_, ok, msg) in ristretto_formulas(F).items() if inst.startswith(pre)]
+    return len(rs) >= 8 and all(rs)
+
+
 def decode_truth_table(F, dec, roles1, roles2):
     """(exact, message): decompress interpreted with step_1 / step_2 replaced by each of the 32 combinations of their five flags (constant Choices, everything
     else unknown) returns Some for exactly one combination: canonical, s non-negative, square, t non-negative, y non-zero - and None for the 31 others"""
@@ -288,6 +312,8 @@ def check_cfg(F, R, cfg):
     for nm, f in encs:
         fv = view(F, f)
         good, msg = check_encoder(fv)
+        if not good and encoder_formulas_ok(F, nm):
+            good, msg = True, "structural form not recognised; decided by C06.formula: in every sign scenario the encoded value is the non-negative representative |s| of the RFC 9496 formula"
         (R.ok if good else R.viol)("C06.encode.nonneg", I(nm), msg, *(() if good else (fv.loc(),)))
 
     # ---------------------------------------------------------------- one-way map: both halves, two maps, added
@@ -359,7 +385,7 @@ def check_cfg(F, R, cfg):
         fe_ty = ep["variants"][0]["fields"][0]["ty"]
         nf = 0
         import itertools
-        for inst, f_, ok, msg in itertools.chain(FR.ristretto(F, fe_ty), FR.ristretto_batch(F, fe_ty) if F.has_cfg("feature=alloc") else ()):
+        for inst, (f_, ok, msg) in ristretto_formulas(F).items():
             nf += 1 if f_ else 0
             (R.ok if ok else R.viol)("C06.formula", I(inst), str(msg), *(() if ok else (F.loc(f_) if f_ else "",)))
         R.floor("C06.formula", I("ristretto255 formula scenarios decided"), nf, 22 if F.has_cfg("feature=alloc") else 14)
